@@ -191,12 +191,19 @@ func dominatesReturnsVia(b *ssa.BasicBlock, returns []*ssa.BasicBlock) bool {
 
 // ruleExternalReset: the store to externalNoteTracker is a fresh map filled for channels 0..15 between Lock and Unlock of externalTrackerMutex.
 func ruleExternalReset(c *Ctx, dv *dev, fn *ssa.Function, rule string) {
+	stores := 0
+	defer func() {
+		if stores == 0 {
+			ruleExternalResetInPlace(c, dv, fn, rule)
+		}
+	}()
 	for _, b := range fn.Blocks {
 		for _, in := range b.Instrs {
 			st, ok := in.(*ssa.Store)
 			if !ok || fieldOfAddr(st.Addr) != dv.fields["externalNoteTracker"] {
 				continue
 			}
+			stores++
 			key := "device.Panic/external-highlight-reset"
 			pos := c.P.Pos(st.Pos())
 			mk, isMake := throughCtor(c.P, st.Val).(*ssa.MakeMap)
@@ -318,7 +325,8 @@ func checkC14(c *Ctx) {
 			}
 		}
 	}
-	ruleDispatch(c, dv, "R14.5", true, false) // every press and release reaches the held-key bookkeeping
+	ruleDispatch(c, dv, "R14.5", true, false)                   // every press and release reaches the held-key bookkeeping
+	c.importRules(configIntactRules, []string{"R3.7"}, "R14.6") // the exit sequence compared against is the parsed one
 	c.MinCount("R14.1", 3)
 	c.MinCount("R14.2", 5)
 	c.MinCount("R14.3", 1)
@@ -661,4 +669,94 @@ func ruleKeyTrackerProtocol(c *Ctx, dv *dev) {
 	} else {
 		c.OK("R14.4", k, pos, fmt.Sprintf("%d press path(s) without completion proceed to NoteOn / action handling", cnt[k]))
 	}
+}
+
+// ruleExternalResetInPlace: the panic action does not replace the external-note tracker: then it must empty it in place for
+// ALL channels - every inner set is replaced by a fresh one, cleared, or emptied key by key, under a key that runs over all
+// channels (a counted loop 0..15 or a range over the tracker itself), while externalTrackerMutex is held.
+func ruleExternalResetInPlace(c *Ctx, dv *dev, fn *ssa.Function, rule string) {
+	key := "device.Panic/external-highlight-reset"
+	pos := c.P.Pos(fn.Pos())
+	field := dv.fields["externalNoteTracker"]
+	allChannels := func(k ssa.Value) bool {
+		for i := 0; i < 3; i++ {
+			if cv, ok := k.(*ssa.Convert); ok {
+				k = cv.X
+			}
+		}
+		if lo, hi, ok := countedLoopRange(k); ok && lo == 0 && hi == 15 {
+			return true
+		}
+		// the key of a range over the tracker
+		if ex, ok := k.(*ssa.Extract); ok && ex.Index == 1 {
+			if nx, ok := ex.Tuple.(*ssa.Next); ok {
+				if r, ok := nx.Iter.(*ssa.Range); ok && derivesFromField(r.X, field, map[ssa.Value]bool{}) {
+					if _, isLookup := r.X.(*ssa.Lookup); !isLookup {
+						return true
+					}
+				}
+			}
+		}
+		return false
+	}
+	innerOfAll := func(m ssa.Value) bool { // m = tracker[k] with k over all channels, or the value of a range over the tracker
+		switch x := m.(type) {
+		case *ssa.Lookup:
+			return derivesFromField(x.X, field, map[ssa.Value]bool{}) && allChannels(x.Index)
+		case *ssa.Extract:
+			if x.Index == 2 {
+				if nx, ok := x.Tuple.(*ssa.Next); ok {
+					if r, ok := nx.Iter.(*ssa.Range); ok && derivesFromField(r.X, field, map[ssa.Value]bool{}) {
+						_, isLookup := r.X.(*ssa.Lookup)
+						return !isLookup
+					}
+				}
+			}
+		}
+		return false
+	}
+	var at ssa.Instruction
+	for _, b := range fn.Blocks {
+		for _, in := range b.Instrs {
+			switch x := in.(type) {
+			case *ssa.MapUpdate:
+				if _, isMk := x.Value.(*ssa.MakeMap); isMk && derivesFromField(x.Map, field, map[ssa.Value]bool{}) && allChannels(x.Key) {
+					if _, inner := x.Map.(*ssa.Lookup); !inner {
+						at = x
+					}
+				}
+			case *ssa.Call:
+				bi, ok := x.Call.Value.(*ssa.Builtin)
+				if !ok || len(x.Call.Args) == 0 {
+					continue
+				}
+				switch bi.Name() {
+				case "clear":
+					if innerOfAll(x.Call.Args[0]) {
+						at = x
+					}
+				case "delete":
+					// delete(inner, note) inside a range over that same inner set
+					if len(x.Call.Args) == 2 && innerOfAll(x.Call.Args[0]) {
+						if ex, ok := x.Call.Args[1].(*ssa.Extract); ok && ex.Index == 1 {
+							if nx, ok := ex.Tuple.(*ssa.Next); ok {
+								if r, ok := nx.Iter.(*ssa.Range); ok && innerOfAll(r.X) {
+									at = x
+								}
+							}
+						}
+					}
+				}
+			}
+		}
+	}
+	if at == nil {
+		c.Bad(rule, key, pos, "the panic action neither replaces the external-note tracker by a fresh 16-channel map nor empties the sets of all 16 channels in place: highlights of notes received on the channels it skips survive the panic")
+		return
+	}
+	if !heldAt(at, dv.fields["externalTrackerMutex"]) {
+		c.Bad(rule, key, c.P.Pos(at.Pos()), "the external-note tracker is emptied without externalTrackerMutex held")
+		return
+	}
+	c.OK(rule, key, c.P.Pos(at.Pos()), "the sets of all channels are emptied in place while externalTrackerMutex is held")
 }
